@@ -17,6 +17,7 @@ import (
 	"github.com/safing/jess/filesig"
 	"github.com/safing/jess/lhash"
 	"github.com/safing/portbase/log"
+	"github.com/safing/portbase/utils"
 	"github.com/safing/portbase/utils/renameio"
 )
 
@@ -118,7 +119,7 @@ func (reg *ResourceRegistry) fetchFile(ctx context.Context, client *http.Client,
 	// Write signature file, if we have one and if verification succeeded.
 	if len(sigFileData) > 0 && hasher != nil {
 		sigFilePath := rv.storagePath() + filesig.Extension
-		err := os.WriteFile(sigFilePath, sigFileData, 0o0644) //nolint:gosec
+		err := writeSigFileAtomic(reg.tmpDir.Path, sigFilePath, sigFileData)
 		if err != nil {
 			switch rv.resource.VerificationOptions.DownloadPolicy {
 			case SignaturePolicyRequire:
@@ -211,7 +212,7 @@ func (reg *ResourceRegistry) fetchMissingSig(ctx context.Context, client *http.C
 	}
 
 	// Write signature file.
-	err = os.WriteFile(rv.storageSigPath(), sigFileData, 0o0644) //nolint:gosec
+	err = writeSigFileAtomic(reg.tmpDir.Path, rv.storageSigPath(), sigFileData)
 	if err != nil {
 		switch rv.resource.VerificationOptions.DownloadPolicy {
 		case SignaturePolicyRequire:
@@ -225,6 +226,16 @@ func (reg *ResourceRegistry) fetchMissingSig(ctx context.Context, client *http.C
 
 	log.Debugf("%s: fetched %s and stored to %s", reg.Name, rv.versionedSigPath(), rv.storageSigPath())
 	return nil
+}
+
+// writeSigFileAtomic writes a signature file like the resource itself: to a
+// temporary file in tmpDir that is synced and then renamed into place, so that a
+// crash or write error never leaves a truncated signature next to a resource.
+func writeSigFileAtomic(tmpDir, sigFilePath string, sigFileData []byte) error {
+	return utils.CreateAtomic(sigFilePath, bytes.NewReader(sigFileData), &utils.AtomicFileOptions{
+		Mode:    0o0644,
+		TempDir: tmpDir,
+	})
 }
 
 func (reg *ResourceRegistry) fetchAndVerifySigFile(ctx context.Context, client *http.Client, verifOpts *VerificationOptions, sigFilePath string, requiredMetadata map[string]string, tries int) (*lhash.LabeledHash, []byte, error) {
